@@ -71,10 +71,9 @@ extern int mpt_vprintf(MPT_STRUCT(array) *arr, const char *format, va_list args)
 		buf->_used = used;
 		return MPT_ERROR(BadValue);
 	}
-	if (rval >= 0 && (size_t) rval <= len) {
-		if ((size_t) rval < len) {
-			base[rval] = '\0';
-		}
+	/* complete output needs space for termination */
+	if ((size_t) rval < len) {
+		base[rval] = '\0';
 		buf->_used = used + rval;
 		return rval;
 	}
@@ -86,7 +85,7 @@ extern int mpt_vprintf(MPT_STRUCT(array) *arr, const char *format, va_list args)
 	}
 	buf = arr->_buf;
 	size = used + len;
-	if ((rval = vsnprintf(base, len, format, args)) > 0
+	if ((rval = vsnprintf(base, len, format, args)) >= 0
 	 && (used + rval) < size) {
 		base[rval] = '\0';
 		buf->_used = used + rval;
